@@ -3,7 +3,7 @@ from common import *
 PROPS = {
     'C16': dict(
         engine='sched', driver='sched', stateful=False,
-        lean=['XV.Props.C16', 'XV.Props.C16Pow', 'XV.Props.C16Fork', 'XV.Props.C16Plug'],
+        lean=['XV.Props.C16', 'XV.Props.C16Pow', 'XV.Props.C16Fork', 'XV.Props.C16Plug', 'XV.Props.C16Elect'],
         level='proof',
         timeout={'quick': 600, 'thorough': 3000},
         trusted_base=[KERNEL, TRANSLATOR, HARNESS, CRYPTO,
